@@ -34,7 +34,9 @@ CLAIMED = {
         "module table, depth and sharing: the flat module has exactly one instance per leaf of the hierarchy, all leaves, under pairwise "
         "distinct names, and the top's ports; two leaf terminals share a flat signal iff walk put them on one net (path, name), a terminal "
         "is on a flat port iff it is on that port's net; whenever two different nets or leaves would share a ':'-joined name flatten "
-        "returns nothing; a child's port is the net its parent connects, an internal signal a net private to its instance path. Tied to "
+        "returns nothing; and (flatten_preserves_connectivity) two leaf terminals share a flat signal, or a terminal sits on a flat port, iff the "
+        "signals they are attached to are connected in the hierarchy - connectivity being the equivalence closure of 'a child's port is the signal "
+        "its instantiator connects to it' (hypothesis: instance names and bound ports are unique per module). Tied to "
         "the code by generated hierarchies (incl. designer names with ':' colliding with joined paths): flat module compared name by name "
         "with the model's, and Sem.pkg(to_proto(flatten(m))) = Sem.src(m) with the same devices.",
         note="Model hand-written after flatten.py. That walk's labelling is the hierarchy's connectivity is not a theorem: it is decided per "
